@@ -240,18 +240,11 @@ class Program:
         # written are expanded at their call sites, new locals that only cache an attribute chain are removed
         from . import normalise, alpha
         trees = {rel: parse_module(src, rel) for mod, rel, src in pending}
-        # syntactic sugar first (applies to every tree): walrus, conditional expressions, all/any
-        normalise.desugar_walrus(trees)
-        normalise.split_chained_assignments(trees)
-        normalise.split_parallel_assignments(trees)
-        normalise.branch_on_condition(trees)
-        normalise.desugar_conditional_expressions(trees)
-        normalise.desugar_quantifiers(trees)
-        normalise.desugar_boolean_returns(trees)
+        # syntactic sugar first (applies to every tree): walrus, conditional expressions, all/any ...
+        normalise.sugar_passes(trees)
         self.inlined_constants = normalise.inline_new_constants(trees)
         self.expanded_helpers = normalise.expand_new_helpers(trees)
-        self.comprehension_rewrites = normalise.comprehension_form(trees)
-        normalise.extend_form(trees)
+        self.comprehension_rewrites = normalise.shape_passes(trees)
         # locals get their reference names back before "new relative to the reference" is decided by name
         for rel, tree in trees.items():
             alpha.normalise_module(tree, rel)
